@@ -425,6 +425,10 @@ def gen_pyproject(rnd):
         blocks.remove('project-dotted')
     if 'optional-inline' in blocks and ('project' in blocks or 'optional' in blocks):
         blocks.remove('optional-inline')
+    if 'project-dotted' in blocks:
+        # a top-level dotted key belongs to the root table only before the first table header
+        blocks.remove('project-dotted')
+        blocks.insert(0, 'project-dotted')
     for b in blocks:
         if b == 'project':
             out.w('[project]' + nl + 'name' + eq + '"demo"' + nl)
